@@ -1,0 +1,15 @@
+//go:build verif
+// +build verif
+
+package bmtree
+
+// Verification hooks (build tag "verif" only): read-only views of unexported state.
+
+// VerifIdxToPath returns a copy of the IndexToPath lookup table.
+func VerifIdxToPath() [][]uint64 {
+	r := make([][]uint64, len(idxToPath))
+	for i, row := range idxToPath {
+		r[i] = append([]uint64{}, row...)
+	}
+	return r
+}
